@@ -7,7 +7,8 @@ class Leg:
     def __init__(self, name, pkg, test, engine="rapid-PBT", rapid=True, race=False, instrument=None,
                  checks=(1000, 10000), shards=(1, 16), timeout=(300, 3600), steps=None, env=None,
                  env_quick=None, env_thorough=None, tiers=("quick", "thorough"), fuzz=None, fuzztime=60,
-                 app=None, crash_is_violation=True, shrinktime=20, tests=None, replay_attempts=1):
+                 app=None, crash_is_violation=True, shrinktime=20, tests=None, replay_attempts=1,
+                 shard_env=None, goarch=None, wrap=None):
         self.name = name
         self.pkg = pkg
         self.test = test  # -test.run regex
@@ -30,6 +31,9 @@ class Leg:
         self.shrinktime = shrinktime
         self.tests = tests or []  # stats test names whose replays this leg can run
         self.replay_attempts = replay_attempts
+        self.shard_env = shard_env or []  # list of env dicts, shard s gets entry s % len (a configuration dimension)
+        self.goarch = goarch              # cross-compile the test binary for this GOARCH (e.g. "386")
+        self.wrap = wrap                  # name of a wrapper in check.WRAPPERS (e.g. "no-tzdata")
 
 
 PROPS = {}
@@ -54,6 +58,9 @@ PROPS["C14"] = {
     "legs": [
         Leg("grid", "c14", "^TestGrid$", engine="enumerate", rapid=False, shards=(1, 1), tests=["grid"]),
         Leg("random", "c14", "^TestRandom$", checks=(200000, 6000000), shards=(2, 16), tests=["random"]),
+        Leg("parallel-race", "c14", "^TestParallel$", engine="sched", race=True, checks=(500, 8000), shards=(2, 8), tests=["parallel"], replay_attempts=5),
+        Leg("grid-386", "c14", "^TestGrid$", engine="enumerate", rapid=False, goarch="386", shards=(1, 1), tests=["grid"]),
+        Leg("random-386", "c14", "^TestRandom$", goarch="386", checks=(50000, 1000000), shards=(1, 8), tests=["random"]),
         Leg("fuzz-bits", "c14", "", engine="native-fuzz", fuzz="FuzzBits", fuzztime=120, tiers=("thorough",)),
     ],
 }
@@ -77,6 +84,9 @@ PROPS["C07"] = {
         Leg("sweep", "c07", "^TestSweep$", engine="enumerate", rapid=False, shards=(8, 16), tests=["sweep"]),
         Leg("frame", "c07", "^TestFrame$", checks=(20000, 200000), shards=(2, 16), tests=["frame"]),
         Leg("stream", "c07", "^TestStream$", checks=(3000, 60000), shards=(2, 16), tests=["stream"]),
+        Leg("parallel", "c07", "^TestParallel$", engine="sched", checks=(800, 15000), shards=(2, 16), tests=["parallel"], replay_attempts=5),
+        Leg("parallel-race", "c07", "^TestParallel$", engine="sched", race=True, checks=(150, 3000), shards=(2, 8), tests=["parallel"], replay_attempts=5),
+        Leg("frame-no-tzdata", "c07", "^TestFrame$", wrap="no-tzdata", env={"ZONEINFO": ""}, checks=(4000, 40000), shards=(1, 8), tests=["frame"]),
         Leg("fuzz-typed-frame", "c07", "", engine="native-fuzz", fuzz="FuzzTypedFrame", fuzztime=150, tiers=("thorough",)),
         Leg("fuzz-raw-stream", "c07", "", engine="native-fuzz", fuzz="FuzzRawStream", fuzztime=120, tiers=("thorough",)),
     ],
@@ -194,6 +204,9 @@ PROPS["C05"] = {
     "min_evals": {"quick": 20000, "thorough": 1000000},
     "legs": [
         Leg("message", "c05", "^TestMessage$", checks=(60000, 2000000), shards=(2, 16), tests=["message"]),
+        Leg("parallel", "c05", "^TestParallel$", engine="sched", checks=(1500, 30000), shards=(2, 16), tests=["parallel"], replay_attempts=5),
+        Leg("parallel-race", "c05", "^TestParallel$", engine="sched", race=True, checks=(300, 5000), shards=(2, 8), tests=["parallel"], replay_attempts=5),
+        Leg("message-386", "c05", "^TestMessage$", goarch="386", checks=(20000, 300000), shards=(1, 8), tests=["message"]),
         Leg("fuzz-message", "c05", "", engine="native-fuzz", fuzz="FuzzMessage", fuzztime=120, tiers=("thorough",)),
     ],
 }
@@ -212,6 +225,9 @@ PROPS["C04"] = {
     "min_evals": {"quick": 5000, "thorough": 300000},
     "legs": [
         Leg("message", "c04", "^TestMessage$", checks=(4000, 300000), shards=(2, 16), tests=["message"]),
+        Leg("parallel", "c04", "^TestParallel$", engine="sched", checks=(600, 10000), shards=(2, 16), tests=["parallel"], replay_attempts=5),
+        Leg("parallel-race", "c04", "^TestParallel$", engine="sched", race=True, checks=(150, 3000), shards=(2, 8), tests=["parallel"], replay_attempts=5),
+        Leg("message-386", "c04", "^TestMessage$", goarch="386", checks=(1500, 40000), shards=(1, 8), tests=["message"]),
         Leg("fuzz-message", "c04", "", engine="native-fuzz", fuzz="FuzzMessage", fuzztime=150, tiers=("thorough",)),
     ],
 }
@@ -231,6 +247,9 @@ PROPS["C08"] = {
     "min_evals": {"quick": 50000, "thorough": 2000000},
     "legs": [
         Leg("cell", "c08", "^TestCell$", checks=(60000, 2000000), shards=(2, 16), tests=["cell"]),
+        Leg("parallel", "c08", "^TestParallel$", engine="sched", checks=(1500, 30000), shards=(2, 16), tests=["parallel"], replay_attempts=5),
+        Leg("parallel-race", "c08", "^TestParallel$", engine="sched", race=True, checks=(300, 5000), shards=(2, 8), tests=["parallel"], replay_attempts=5),
+        Leg("cell-386", "c08", "^TestCell$", goarch="386", checks=(20000, 300000), shards=(1, 8), tests=["cell"]),
     ],
 }
 
@@ -251,7 +270,7 @@ PROPS["C06"] = {
     "assumptions": _TIME_ASSUME,
     "min_evals": {"quick": 5000, "thorough": 300000},
     "legs": [
-        Leg("history", "c06", "^TestHistory$", checks=(4000, 150000), shards=(2, 16), tests=["history"]),
+        Leg("history", "c06", "^TestHistory$", checks=(2000, 150000), shards=(6, 18), tests=["history"], shard_env=[{"TZ": "UTC"}, {"TZ": "Europe/London"}, {"TZ": "America/New_York"}, {"TZ": "Asia/Kolkata"}, {"TZ": "Australia/Lord_Howe"}, {"TZ": "Europe/Moscow"}]),
     ],
 }
 
@@ -267,7 +286,7 @@ PROPS["C17"] = {
     "assumptions": _TIME_ASSUME,
     "min_evals": {"quick": 5000, "thorough": 300000},
     "legs": [
-        Leg("history", "c17", "^TestHistory$", checks=(4000, 150000), shards=(2, 16), tests=["history"]),
+        Leg("history", "c17", "^TestHistory$", checks=(2000, 150000), shards=(6, 18), tests=["history"], shard_env=[{"TZ": "UTC"}, {"TZ": "Europe/London"}, {"TZ": "America/New_York"}, {"TZ": "Asia/Kolkata"}, {"TZ": "Australia/Lord_Howe"}, {"TZ": "Europe/Moscow"}]),
     ],
 }
 
